@@ -452,6 +452,13 @@ static int lzh_decompress(struct kwajd_stream *lzh)
     INIT_BITS;
     RESTORE_BITS;
     memset(&lzh->window[0], LZSS_WINDOW_FILL, LZSS_WINDOW_SIZE);
+    /* the code length tables are built from these even when the input ends
+     * inside them: do not let that read memory nobody has written */
+    memset(&lzh->MATCHLEN1_len[0], 0, sizeof(lzh->MATCHLEN1_len));
+    memset(&lzh->MATCHLEN2_len[0], 0, sizeof(lzh->MATCHLEN2_len));
+    memset(&lzh->LITLEN_len[0],    0, sizeof(lzh->LITLEN_len));
+    memset(&lzh->OFFSET_len[0],    0, sizeof(lzh->OFFSET_len));
+    memset(&lzh->LITERAL_len[0],   0, sizeof(lzh->LITERAL_len));
 
     /* read 6 encoding types (for byte alignment) but only 5 are needed */
     for (i = 0; i < 6; i++) READ_BITS_SAFE(types[i], 4);
@@ -541,6 +548,10 @@ static int lzh_read_lens(struct kwajd_stream *lzh,
             READ_BITS_SAFE(c, 4); lens[i] = c;
         }
         break;
+
+    default:
+        /* there are only four ways of encoding the lengths */
+        return MSPACK_ERR_DATAFORMAT;
     }
     STORE_BITS;
     return MSPACK_ERR_OK;
